@@ -1579,3 +1579,138 @@ def rescale_factors_effect(g):
     g.forall_paths(f"{name}:effect-is-in-place-scaling-then-unit-scale", paths, pred,
                    "assigns exactly: edge[:,d] *= scale[_p|_c], block[:,d] *= scale[_j|_k], node[:,k] *= scale, "
                    "then scale[:] = 1.0 (in place)", only=lambda p: p.status in ("return", "fallthrough", "end", None) or True)
+
+
+# ---------------------------------------------------------------------------------------------
+def maximization_youngest_parent(g, fname="discrete.BeliefPropagation.outside_maximization"):
+    """C13 / C11: "every other node takes the timepoint, no later than its YOUNGEST (already assigned) parent's ...".
+    Loop invariant of the per-child edge loop, checked on the integer projection of the real loop body with z3:
+        after the iteration for an edge with parent index K:
+            youngest_par_index == K                          if this is the child's first edge
+            youngest_par_index == min(old youngest, K)       otherwise
+    (K = maximized_node_times[edge.parent], which the body must not write), and the child's final argmax is taken
+    over [: youngest_par_index + 1].  All other statements of the body are irrelevant to these integers and are
+    skipped; an assignment to a tracked integer that the projection cannot evaluate havocs it (then the invariant
+    fails, which is the safe direction)."""
+    import z3
+    try:
+        fn = extract.get_function(fname)
+    except LookupError as e:
+        g.ob(f"{fname}:attach", False, "function exists", str(e), verdict="does-not-attach")
+        return
+    loops = [n for n in ast.walk(fn.node) if isinstance(n, ast.For) and isinstance(n.iter, ast.Call)
+             and ast.unparse(n.iter.func) == "enumerate" and isinstance(n.target, ast.Tuple)
+             and [ast.unparse(t) for t in n.target.elts] == ["edge_index", "edge"]]
+    if len(loops) != 1:
+        g.ob(f"{fname}:youngest-parent-invariant", False, "one `for edge_index, edge in enumerate(edges)` loop",
+             f"found {len(loops)}", verdict="does-not-attach")
+        return
+    loop = loops[0]
+    KTEXT = "maximized_node_times[edge.parent]"
+    writes = [ast.unparse(t) for st in loop.body for n in ast.walk(st) if isinstance(n, (ast.Assign, ast.AugAssign))
+              for t in (n.targets if isinstance(n, ast.Assign) else [n.target]) if ast.unparse(t).startswith("maximized_node_times")]
+    K, Y0, EI = z3.Int("K"), z3.Int("Y0"), z3.Int("edge_index")
+    fresh = iter(z3.Int(f"havoc{k}") for k in range(1000))
+
+    def ev(e, env):
+        t = ast.unparse(e)
+        if t == KTEXT:
+            return K
+        if isinstance(e, ast.Name):
+            if e.id == "edge_index":
+                return EI
+            return env.get(e.id)
+        if isinstance(e, ast.Constant) and isinstance(e.value, int) and not isinstance(e.value, bool):
+            return z3.IntVal(e.value)
+        if isinstance(e, ast.Call) and ast.unparse(e.func) in ("min", "max", "np.minimum", "np.maximum") and len(e.args) == 2:
+            a, b = ev(e.args[0], env), ev(e.args[1], env)
+            if a is None or b is None:
+                return None
+            return z3.If(a <= b, a, b) if "min" in ast.unparse(e.func) else z3.If(a >= b, a, b)
+        if isinstance(e, ast.BinOp) and isinstance(e.op, (ast.Add, ast.Sub)):
+            a, b = ev(e.left, env), ev(e.right, env)
+            if a is None or b is None:
+                return None
+            return a + b if isinstance(e.op, ast.Add) else a - b
+        if isinstance(e, ast.IfExp):
+            c, a, b = cond(e.test, env), ev(e.body, env), ev(e.orelse, env)
+            return None if None in (c, a, b) else z3.If(c, a, b)
+        return None
+
+    def cond(e, env):
+        if isinstance(e, ast.Compare) and len(e.ops) == 1:
+            a, b = ev(e.left, env), ev(e.comparators[0], env)
+            if a is None or b is None:
+                return None
+            op = type(e.ops[0])
+            return {ast.Lt: a < b, ast.LtE: a <= b, ast.Gt: a > b, ast.GtE: a >= b, ast.Eq: a == b, ast.NotEq: a != b}.get(op)
+        if isinstance(e, ast.UnaryOp) and isinstance(e.op, ast.Not):
+            c = cond(e.operand, env)
+            return None if c is None else z3.Not(c)
+        return None
+    TRACK = {"youngest_par_index", "cur_parent_index"}
+
+    def block(stmts, states):
+        for st in stmts:
+            nxt = []
+            for pc, env in states:
+                if isinstance(st, ast.Assign) and len(st.targets) == 1 and isinstance(st.targets[0], ast.Name):
+                    name = st.targets[0].id
+                    v = ev(st.value, env)
+                    if v is not None or name in TRACK:
+                        env = dict(env)
+                        env[name] = v if v is not None else next(fresh)
+                    nxt.append((pc, env))
+                elif isinstance(st, ast.AugAssign) and isinstance(st.target, ast.Name) and st.target.id in TRACK:
+                    env = dict(env)
+                    env[st.target.id] = next(fresh)
+                    nxt.append((pc, env))
+                elif isinstance(st, ast.If):
+                    c = cond(st.test, env)
+                    if c is None:
+                        nxt += block(st.body, [(pc, env)]) + block(st.orelse, [(pc, env)])
+                    else:
+                        nxt += block(st.body, [(pc + [c], env)]) + block(st.orelse, [(pc + [z3.Not(c)], env)])
+                else:
+                    nxt.append((pc, env))
+            states = nxt
+        return states
+    finals = block(loop.body, [([], {"youngest_par_index": Y0})])
+    want = z3.If(EI == 0, K, z3.If(Y0 <= K, Y0, K))
+    bad = None
+    if writes:
+        bad = f"the loop body writes {writes}: K is not stable within the iteration"
+    for pc, env in finals:
+        if bad:
+            break
+        y = env.get("youngest_par_index")
+        s = z3.Solver()
+        s.add(EI >= 0, *pc)
+        if y is None:
+            bad = "youngest_par_index is not an integer expression the projection can follow"
+            break
+        s.add(y != want)
+        if s.check() != z3.unsat:
+            m = s.model()
+            bad = (f"after an iteration with edge_index={m.eval(EI, True)}, old youngest={m.eval(Y0, True)}, parent index "
+                   f"K={m.eval(K, True)} the loop leaves youngest_par_index={m.eval(y, True)} "
+                   f"(expected {m.eval(want, True)})")
+    g.ob(f"{fname}:youngest-parent-invariant", not bad,
+         "forall edge_index >= 0, Y0, K: youngest_par_index' == (K if edge_index == 0 else min(Y0, K))   "
+         f"[z3, {len(finals)} path(s) of the integer projection of the real loop body]", bad)
+    # use: the child's argmax is taken over [: youngest_par_index + 1]
+    after = []
+    parent_body = None
+    for n in ast.walk(fn.node):
+        if isinstance(n, ast.For) and loop in n.body:
+            parent_body = n.body
+    ok_use, why = False, "the per-child loop was not found"
+    if parent_body is not None:
+        after = parent_body[parent_body.index(loop) + 1:]
+        slices = [ast.unparse(s.slice) for st in after for s in ast.walk(st) if isinstance(s, ast.Subscript)
+                  and isinstance(s.slice, ast.Slice)]
+        argmax = [ast.unparse(st) for st in after if "np.argmax" in ast.unparse(st) and "maximized_node_times[child]" in ast.unparse(st)]
+        ok_use = bool(argmax) and bool(slices) and all(_norm(x) in (_norm(":youngest_par_index + 1"), _norm(":(youngest_par_index + 1)")) for x in slices)
+        why = "" if ok_use else f"slices after the edge loop: {slices}; argmax statement: {argmax}"
+    g.ob(f"{fname}:argmax-restricted-to-youngest-parent", ok_use,
+         "maximized_node_times[child] = argmax over [: youngest_par_index + 1] of result x inside", why)
